@@ -70,6 +70,7 @@ func LoadFilter(filter Filter) error {
 		}
 	}
 
+	verifBeforeInstall(sockFilter, filter.Flag)
 	if err = seccomp(seccompSetModeFilter, filter.Flag, unsafe.Pointer(program)); err != nil {
 		if err == syscall.ENOSYS {
 			return fmt.Errorf("failed loading seccomp filter: seccomp "+
